@@ -42,6 +42,11 @@ type CheckRun struct {
 
 var curT *testing.T // the worker's *testing.T (synctest.Test needs one)
 
+// synctestRun runs f in a fresh bubble.
+func synctestRun(f func()) { synctest.Test(curT, func(*testing.T) { f() }) }
+
+func synctestWait() { synctest.Wait() }
+
 type RunOpt struct {
 	Name    string
 	Dir     string // scratch cwd for this run (must exist)
